@@ -108,6 +108,11 @@ func (sfc *StructFieldsCopy) createFieldSnippet(f *types.Var) snippet.Snippet {
 			// always gen
 			fc.HasDeepCopyInto = true
 			fc.HasDeepCopy = true
+
+			// the methods are the ones the generator writes (value forms for a map, pointer forms otherwise),
+			// whether a previous run already added them to the package or not
+			_, isMap := x.Underlying().(*types.Map)
+			fc.PtrResultOrParam = !isMap
 		}
 		if fc.PtrResultOrParam && fc.HasDeepCopyInto {
 			return snippet.T(`
